@@ -7,7 +7,7 @@ PLAN = {
     'property': 'C13',
     'units': [{'name': 'dma', 'tu': ['src/dma.cpp', 'src/ahbm.cpp'], 'roots': ROOTS,
                'must_fire': ['SharedMemory::raw[i] -> VERIF_RAW_READ(raw, i) (bounds = outcome/obligation)', 'SharedMemory::raw[i] = v -> VERIF_RAW_WRITE(raw, i, v)', 'std::queue<T> -> verif_queue_T']}],
-    'harness_files': ['harness/c13.c'], 'contract_files': ['contracts/dma.h'], 'spec_files': ['spec/dma_spec.h'],
+    'harness_files': ['harness/c13.c'], 'contract_files': ['contracts/dma_contracts.h'], 'spec_files': ['spec/dma_spec.h'],
     'native': {'bridges': ['replay/bridge_dma.cpp']},
     'fidelity_samples': {'quick': 2000, 'thorough': 20000},
     'obligations': [
